@@ -121,7 +121,7 @@ CLAIMS = {
         "(below/at/above the limiting Rabi frequency) x 3 detunings x 21 optima + exact midpoints + the options themselves: "
         "option set equals an independent computation, choice is the closest option, stored choice reproduces itself; (c) every "
         "valid drift-corrected EOM history up to depth 3-4 is emulated and its final Rydberg population equals that of the same "
-        "pulses at zero off-detuning (5e-5). One world gives the EOM a custom buffer time shorter than the channel's own fall time. Every state with an open EOM block is sampled with an extended duration: the idle tail sits at the block's off-detuning whatever the last slot.",
+        "pulses at zero off-detuning (5e-5). One world gives the EOM a custom buffer time shorter than the channel's own fall time. Every state with an open EOM block is sampled with an extended duration: the idle tail sits at the block's off-detuning whatever the last slot. The emulated histories include a setpoint with a large off-detuning (-31.8 rad/us) and an ordinary pulse with an off-grid fall time before the block (16 ns clock).",
         "Fall times trusted (C14). Populations compared at the final time only; single atom.",
         "DESIGN.md §3 C15",
     ),
@@ -169,7 +169,7 @@ CLAIMS = {
         "every limit => accepted and scheduled unchanged (or only lengthened to the next clock multiple with the same defining "
         "parameters). Monitor: every pulse slot of every state of a depth 2-4 BFS on four worlds with / without limits; for every accepted "
         "transition ending at E the same call is re-issued with max_sequence_duration = E (must be accepted) and E-1 (must be "
-        "refused). Two detuning maps of different largest weight configured on one DMM id, with detunings between the two per-atom limits. An SLM mask on a DMM whose clock / minimum / maximum duration differ from the Global channel's (the mask's automatic pulse must respect the DMM's own limits).",
+        "refused). Two detuning maps of different largest weight configured on one DMM id, with detunings between the two per-atom limits. An SLM mask on a DMM whose clock / minimum / maximum duration differ from the Global channel's (the mask's automatic pulse must respect the DMM's own limits). Minimum-average x lengthened-duration grid (the pulse that is scheduled is judged), and histories in which a pulse at a limit is followed by its near twin (within Pulse.__eq__'s tolerance) outside the limit.",
         "Detuning values within 1e-6 of a limit are a don't-care band; custom / composite waveforms may be refused for "
         "non-clock-multiple durations; waveform samples trusted (C16).",
         "DESIGN.md §3 C01",
@@ -209,7 +209,7 @@ CLAIMS = {
         "reaches -0.0) and +-3e-6 (off the trap). Object histories: every "
         "sequence of <= 3 (thorough 4) steps over 12 uses / caller-side edits (constructor argument; containers and arrays "
         "returned by traps_dict, coords, sorted_coords, register.qubits, weights) on one 2D / 3D layout built from an array or a "
-        "list, compared after every step with a pristine layout of the same coordinates (7.5k histories). Every out-of-range trap id (-1, -n, n, n+1) must be refused by define_register and MappableRegister.build_register. The register constructor with layout= and every ordering of the right trap ids: only the qubits' own pairing is accepted.",
+        "list, compared after every step with a pristine layout of the same coordinates (7.5k histories). Every out-of-range trap id (-1, -n, n, n+1) must be refused by define_register and MappableRegister.build_register. The register constructor with layout= and every ordering of the right trap ids: only the qubits' own pairing is accepted. Coordinates exactly half way between two 1e-6 grid points (rounding ties) with direction-free consistency oracles; the lattice layouts (rectangular / square / triangular) and every register they define.",
         "Grid values only; sets whose coordinates coincide after rounding must be refused or numbered consistently.",
         "DESIGN.md §3 C19",
     ),
@@ -242,7 +242,7 @@ CLAIMS = {
         "ending in a short zero / low hold and sign-changing ramps) and EOM bandwidths 20/40: the true output beyond duration + "
         "Pulse.fall_time stays below max(0.01, 0.6 % of peak). Sequences: modulated sampling succeeds whenever plain sampling "
         "does and every array ends at the channel duration including fall time, on every state of a depth 2-3 BFS (empty "
-        "channels, channels without bandwidth, open EOM blocks, DMM, EOM slower than / as fast as its channel). Channel bandwidths 240 / 300 / 479 MHz (just below the library ceiling); an exception raised while sampling an accepted sequence is a violation. Fall-time grid with BOTH waveforms of a pulse shaped (6 x 6 shapes x sign) and EOM-mode pulses of weak / zero amplitude and large detuning on 5 / 20 / 40 MHz EOMs.",
+        "channels, channels without bandwidth, open EOM blocks, DMM, EOM slower than / as fast as its channel). Channel bandwidths 240 / 300 / 479 MHz (just below the library ceiling); an exception raised while sampling an accepted sequence is a violation. Fall-time grid with BOTH waveforms of a pulse shaped (6 x 6 shapes x sign) and EOM-mode pulses of weak / zero amplitude and large detuning on 5 / 20 / 40 MHz EOMs. Sequence-level modulated VALUES: equal to the channel's own filter applied to what was scheduled (everywhere without EOM blocks, away from every block otherwise).",
         "Reference filter = Gaussian impulse response of the documented transfer function on a zero-padded input; bandwidths "
         "where int() truncation of the rise time loses > 3 % (37, 44, 49 ... 100 MHz) exceed the 0.6 % clause by design margin "
         "and are not in the grid (DESIGN.md Appendix B #13).",
@@ -263,7 +263,7 @@ CLAIMS = {
         "waveform classes over the SAME variable and constant as two arguments of one template. "
         "Mappable registers: 3 unsorted declared-id orders x every injective mapping of 1-3 ids onto 4 traps x every mapping "
         "insertion order x every index: declared order, trap positions, index-based targeting and equality with direct "
-        "construction on the concrete register. Whole-array variables read through a caller-owned index list which the caller reverses after writing the template. Rounding at exact ties (round half to even) and array literals as operands (scalar x array, array x array, array + array).",
+        "construction on the concrete register. Whole-array variables read through a caller-owned index list which the caller reverses after writing the template. Rounding at exact ties (round half to even) and array literals as operands (scalar x array, array x array, array + array). All operators and functions of parametrized objects (exp, log, log2, cos, tan, tanh, floor-division and modulo both ways, powers, rounding to a decimal), from_max_val constructors, literal boundary values in the calls that follow the first variable (delay 0, zero phase shift, retarget to the current target).",
         "Assignments restricted to those the direct construction accepts; phase-reference entries of unmapped qubits are "
         "ignored (unobservable).",
         "DESIGN.md §3 C08",
@@ -279,7 +279,7 @@ CLAIMS = {
         "out of register order: decoded == the program written with str(id)}, plus the shared-operand expression pairs of C08. For each: document valid under the published "
         "schema (own validator) , decoding succeeds, device and register equal, decoded snapshot equal (or, when parametrized / "
         "mappable, builds for two assignments equal), encode-decode-encode is a fixpoint, measurement and variables equal, and "
-        "encoding leaves the original's full snapshot (incl. call log) unchanged; abstract and legacy codecs. Custom devices that keep a built-in device's name with other specifications (physical and virtual) must come back with their own specifications. C08's skeleton templates (every expression kind at every position, incl. whole-array arguments combined with array literals) go through both codecs and must build to the same sequences.",
+        "encoding leaves the original's full snapshot (incl. call log) unchanged; abstract and legacy codecs. Custom devices that keep a built-in device's name with other specifications (physical and virtual) must come back with their own specifications. C08's skeleton templates (every expression kind at every position, incl. whole-array arguments combined with array literals) go through both codecs and must build to the same sequences. Every case runs in a freshly forked process; decoding histories (two documents with the same variable names but different sizes / types decoded one after the other) are single cases; parametrized programs x every single and pair of call-style deviations incl. keyword-only constructors; export with default values / default traps; detuning maps on every register kind.",
         "Channels compared as a name-keyed map. Known finding: numpy.round expressions are not exportable.",
         "DESIGN.md §3 C04",
     ),
@@ -316,7 +316,7 @@ CLAIMS = {
         "ids, channels / DMMs listed in reverse order) + 6 physical variants; registers "
         "2D/3D x 6 atom orders x 3 id sets x with/without layout, layouts, detuning maps with traps in all 24 orders through a "
         "sequence; 135 emulation configs (observable sets x evaluation times x initial states x noise models) incl. operators "
-        "with complex coefficients; aliasing for StateRepr / NoiseModel / VirtualDevice / Register in all 6 orders. Registers, layouts and device layouts with negative-zero / tiny negative coordinates. Physical devices whose calibrated layouts share a slug, have no slug, or list one layout twice.",
+        "with complex coefficients; aliasing for StateRepr / NoiseModel / VirtualDevice / Register in all 6 orders. Registers, layouts and device layouts with negative-zero / tiny negative coordinates. Physical devices whose calibrated layouts share a slug, have no slug, or list one layout twice. Effective-noise rates of exactly 0; every noise type inside emulation configurations.",
         "Fields excluded from == by the dataclass (short_description) are not compared; layout subclasses compared by traps+slug.",
         "DESIGN.md §3 C17",
     ),
@@ -335,7 +335,7 @@ CLAIMS = {
         "stateful object: every history of <= 3 (thorough 4) configuration calls (set_initial_state x 3, set_config x 3, "
         "add_config x 3, reset_config, set_evaluation_times x 3, run, observers) on one emulator vs a fresh emulator configured with the net "
         "settings of a reference model (3.8k histories); reduced states get_state(reduce_to_basis=...) of three-level runs vs the "
-        "projection of the full state. Resonant drives made of several unequal constant segments and idle periods: final population == sin^2(area/2) on the three emulator entry points. The measured (pseudo-density) state of the legacy results follows the same convention: <reads-as-1 projector> per atom for every basis incl. the leakage bases x every basis state x detection-error rates.",
+        "projection of the full state. Resonant drives made of several unequal constant segments and idle periods: final population == sin^2(area/2) on the three emulator entry points. The measured (pseudo-density) state of the legacy results follows the same convention: <reads-as-1 projector> per atom for every basis incl. the leakage bases x every basis state x detection-error rates. Legacy sampled results (NoisyResults): deterministic corners (eta in {0, 1}, vanishing amplitude spread, detection rates in {0, 1}) and scripted state-preparation patterns; evaluation-time sets with times closer than one sample to the start / end / one another on both APIs; the older QutipBackend and device default noise models as further entry points.",
         "Solver tolerances as listed in the evidence; Rabi value required within the range spanned by effective durations "
         "[T-1, T]; large-shot statistics are not decided.",
         "DESIGN.md §3 C11",
